@@ -561,7 +561,11 @@ class MarkdownNormalizer(Renderer):
 
         # Preserve code content without reformatting.
         code_child = cast(inline.RawText, element.children[0])
-        code_content = code_child.children.rstrip("\n")
+        # Only the final line ending belongs to the fence; blank lines at the end of the
+        # code are part of the code.
+        code_content = code_child.children
+        if code_content.endswith("\n"):
+            code_content = code_content[:-1]
         lang = element.lang if isinstance(element, block.FencedCode) else ""
         extra = element.extra if isinstance(element, block.FencedCode) else ""
         extra_text = f" {extra}" if extra else ""
@@ -589,7 +593,7 @@ class MarkdownNormalizer(Renderer):
         empty_line_prefix = self._second_prefix.rstrip()
         # Only CommonMark line endings separate the lines of the code: `str.splitlines()`
         # would also break a line at a form feed, U+2028, NEL, etc. inside the code.
-        for line in re.split(r"\r\n|\n|\r", code_content) if code_content else []:
+        for line in re.split(r"\r\n|\n|\r", code_content) if code_child.children else []:
             if line:
                 lines.append(f"{self._second_prefix}{line}")
             else:
